@@ -1786,9 +1786,6 @@ func (interp *Interpreter) cfg(root *node, sc *scope, importPath, pkgName string
 			n.child[1].tnext = n
 			n.typ = n.child[0].typ
 			n.findex = sc.add(n.typ)
-			if n.start.action == aNop {
-				n.start.gen = branch
-			}
 
 		case lorExpr:
 			if isBlank(n.child[0]) || isBlank(n.child[1]) {
@@ -1801,9 +1798,6 @@ func (interp *Interpreter) cfg(root *node, sc *scope, importPath, pkgName string
 			n.child[1].tnext = n
 			n.typ = n.child[0].typ
 			n.findex = sc.add(n.typ)
-			if n.start.action == aNop {
-				n.start.gen = branch
-			}
 
 		case parenExpr:
 			wireChild(n)
@@ -2329,7 +2323,8 @@ func fixUntyped(nod *node, sc *scope) {
 			return true
 		}
 		n.typ = nod.typ
-		if n.findex >= 0 {
+		if n.findex >= 0 && !n.rval.IsValid() {
+			// The node is not a constant: it has its own location in frame.
 			sc.types[n.findex] = nod.typ.frameType()
 		}
 		return true
